@@ -4,6 +4,12 @@
 //   R <n> <bit> <bits>       -> n repetitions of <bit>, then <bits>; prints only the outputs of the
 //                               last observation of the run and of each trailing bit
 //   N <max> k:v k:v ...      -> one digit per notification: 1 emitted, 0 silent
+//   D <bits>                 -> like S but starting from StatusState::default()
+//   P <polls>                -> monitor-loop level: each poll is E (aggregate status file unreadable),
+//                               M (file version differs from the extension's) or H (healthy); for each the
+//                               real report_proxy_agent_aggregate_status (hook H7) runs once on the file
+//                               /var/log/azure-proxy-agent/status.json (private tmpfs) and the reported
+//                               status.status is printed as a digit
 use gpaext::common::StatusState;
 use gpaext::constants;
 use gpaext::service_main::service_state::ServiceState;
@@ -19,6 +25,71 @@ fn code(s: &str) -> char {
     } else {
         '3'
     }
+}
+
+fn status_json(version: &str) -> String {
+    let detail = r#"{"status":"RUNNING","message":"ok"}"#;
+    format!(
+        r#"{{"timestamp":"2026-01-01T00:00:00Z","proxyAgentStatus":{{"version":"{}","status":"SUCCESS","monitorStatus":{d},"keyLatchStatus":{d},"ebpfProgramStatus":{d},"proxyListenerStatus":{d},"telemetryLoggerStatus":{d},"proxyConnectionsCount":1}},"proxyConnectionSummary":[],"failedAuthenticateSummary":[]}}"#,
+        version,
+        d = detail
+    )
+}
+
+fn run_polls(polls: &str) -> String {
+    use gpaext::structs::{FormattedMessage, StatusObj};
+    let dir = std::path::Path::new(proxy_agent_shared::proxy_agent_aggregate_status::PROXY_AGENT_AGGREGATE_STATUS_FOLDER);
+    let file = dir.join(proxy_agent_shared::proxy_agent_aggregate_status::PROXY_AGENT_AGGREGATE_STATUS_FILE_NAME);
+    if std::env::var("C20_PRIVATE_VAR_LOG").is_err() {
+        return "!no-private-mount".to_string();
+    }
+    let _ = std::fs::create_dir_all(dir);
+    // the extension's logger must be initialised once (get_logger_key panics otherwise); log into the private tmpfs
+    static LOGGER: std::sync::Once = std::sync::Once::new();
+    LOGGER.call_once(|| gpaext::logger::init_logger("/var/log/c20-ext-log".to_string(), "C20Driver.log"));
+    let ext_version = "9.9.9".to_string();
+    let mut status = StatusObj {
+        name: constants::PLUGIN_NAME.to_string(),
+        operation: constants::ENABLE_OPERATION.to_string(),
+        configurationAppliedTime: String::new(),
+        code: constants::STATUS_CODE_OK,
+        status: constants::SUCCESS_STATUS.to_string(),
+        formattedMessage: FormattedMessage {
+            lang: constants::LANG_EN_US.to_string(),
+            message: String::new(),
+        },
+        substatus: Default::default(),
+    };
+    let mut st = StatusState::new();
+    let mut svc = ServiceState::default();
+    let mut o = String::new();
+    for p in polls.chars() {
+        match p {
+            'E' => {
+                let _ = std::fs::remove_file(&file);
+            }
+            'G' => {
+                std::fs::write(&file, "{ not json").unwrap();
+            }
+            'M' => {
+                std::fs::write(&file, status_json("1.0.0-other")).unwrap();
+            }
+            _ => {
+                std::fs::write(&file, status_json(&ext_version)).unwrap();
+            }
+        }
+        // restored_in_error = true: the rollback step (runs the setup tool) is not part of this property
+        let mut restored = true;
+        gpaext::service_main::verif_taps::report_proxy_agent_aggregate_status(
+            &ext_version,
+            &mut status,
+            &mut st,
+            &mut restored,
+            &mut svc,
+        );
+        o.push(code(&status.status));
+    }
+    o
 }
 
 pub fn main() {
@@ -37,6 +108,19 @@ pub fn main() {
                     o.push(code(&st.update_state(b == '1')));
                 }
                 writeln!(out, "{}", o).unwrap();
+            }
+            Some("D") => {
+                let bits = it.next().unwrap_or("");
+                let mut st = StatusState::default();
+                let mut o = String::with_capacity(bits.len());
+                for b in bits.chars() {
+                    o.push(code(&st.update_state(b == '1')));
+                }
+                writeln!(out, "{}", o).unwrap();
+            }
+            Some("P") => {
+                let polls = it.next().unwrap_or("");
+                writeln!(out, "{}", run_polls(polls)).unwrap();
             }
             Some("R") => {
                 let n: u64 = it.next().unwrap().parse().unwrap();
